@@ -418,9 +418,9 @@ class Check:
             assumptions=self.assumptions,
             wall_s=round(time.time() - self.t0, 1),
             violations=nviol)
-        os.makedirs(os.path.join(VERIF, 'evidence'), exist_ok=True)
-        with open(os.path.join(VERIF, 'evidence', self.pid + '.json'),
-                  'w') as f:
+        edir = os.environ.get('VERIF_EVIDENCE_DIR') or os.path.join(VERIF, 'evidence')
+        os.makedirs(edir, exist_ok=True)
+        with open(os.path.join(edir, self.pid + '.json'), 'w') as f:
             json.dump(ev, f, indent=1, sort_keys=True)
             f.write('\n')
 
